@@ -87,6 +87,9 @@ def check(prop, tier):
                     "tlc_distinct_states": m["tlc_distinct_states"], "generated_in_s": m["wall_s"]} for (n, _, m) in sets],
         "feature_counts": cnt,
     }
+    if prop == "C10":
+        from .simple import run_tlaps
+        coverage["tlaps"] = run_tlaps("proofs/GameProofs.tla")
     assumptions = ["MCGame scales the fifty-move limit down (FiftyLimit 4-8) - the real limit of 100 is exercised by trace validation only",
                    "positions of a game are compared with the library's recorded en-passant field for 'must' and with legal en-passant captures for 'may'"]
     return C.finish(prop, tier, "model_checking", violations, coverage, assumptions, t0)
